@@ -45,6 +45,13 @@ CLAIMED["C08"] = dict(
    ref="DESIGN.md §4 C08")
 
 
+CLAIMED["C17"] = dict(
+   text="The expression is the program and dgrep's engine its interpreter; the check decides the interpreter's structure for all expression trees: the union slot holding a comparison atom is read only under a DEX_VAL test on that access path; the evaluator combines both children of a conjunction with &&, of a disjunction with ||; negation push-down is the involution CONJ<->DISJ with both children's flags toggled (folded over {0,1}) and each parser-producible operator mapped to one with the complementary accept set (abstract interpretation of __nega_kv + constant folding of the matcher's cases over sign in {-1,0,1}); whole-date and specifier comparisons accept exactly the signs their operator names say with the line's value on the left; each DNF rewrite leaves a tree (symbolic execution of the pointer assignments of every branch, aliasing helpers derived from their bodies), matching the release routine; grammar precedences OR<AND<NOT with %expect 0; dgrep writes a selected line once, whole, with its newline.",
+   note="Assumes bison/flex implement the declared precedences; comparison functions are the order (C08); nodes are created only by parser actions, make_dexpr, dexpr_copy.",
+   technique="static analysis: union typestate via CFG guards, table decoding by constant folding / abstract interpretation, symbolic heap execution for ownership, CFG write-once check",
+   ref="DESIGN.md §4 C17")
+
+
 def main():
     props = [json.loads(l)["id"] for l in open(os.path.join(HERE, "properties.jsonl"))]
     checks = []
